@@ -13,8 +13,8 @@ def IsHeadOp : Op → Bool
   | _ => false
 
 /-- the operations whose answers are proved equal to the specification's on admissible histories: insertions,
-votes, checkpoint updates, pin, heads, `GetSlot`, `InSubtree`, `CanonicalChain`, `ClosestToSlot` and the
-checkpoint/pin getters -/
+votes, checkpoint updates, pin, heads, `GetSlot`, `InSubtree`, `CanonicalChain`, `ClosestToSlot`, `CanonAtSlot` and
+the checkpoint/pin getters (`Search` is handled separately: the specification leaves some searches unconstrained) -/
 def Refined : Op → Bool
   | .slot .. => true
   | .block .. => true
@@ -26,10 +26,16 @@ def Refined : Op → Bool
   | .getSlot _ => true
   | .chain .. => true
   | .closest .. => true
+  | .canonAt .. => true
   | .inSub .. => true
   | .just => true
   | .fin => true
   | .pinq => true
+  | _ => false
+
+/-- `Search` operations -/
+def IsSearch : Op → Bool
+  | .search .. => true
   | _ => false
 
 theorem refined_of_head {op : Op} (h : IsHeadOp op = true) : Refined op = true := by
